@@ -74,7 +74,7 @@ func ZZH9aVLQ() {
 
 type zzSeg struct {
 	GenLine, GenCol, Src, SrcLine, SrcCol, Name int
-	HasName                                      bool
+	HasName                                     bool
 }
 
 // zzVLQOpaque is the modular stand-in for encodeVLQ used by the executor
